@@ -121,6 +121,7 @@ class _TReal(T):
         raise TypeErrorSym('not a number: %r' % (v,))
 
 
+PENDING_AXIOMS = []
 box_any = None      # installed by models.py (containers as constructor terms)
 
 
@@ -498,6 +499,15 @@ def box(v):
         return named_const(v.name)
     if hasattr(v, 'as_val'):
         return v.as_val()
+    if isinstance(v, SSet) and v.elem is TVal:
+        # a symbolic set as an opaque value: membership is its array
+        f = z3.Function('box.set', z3.ArraySort(Val, z3.BoolSort()), Val)
+        t = f(v.arr)
+        x = z3.Const(fresh_name('m'), Val)
+        PENDING_AXIOMS.append(z3.ForAll(
+            [x], py_in(t, x) == z3.Select(v.arr, x),
+            patterns=[py_in(t, x)]))
+        return t
     if type(v).__name__ in ('Model', 'SFunc', 'ClassRef', 'ModuleRef'):
         return named_const('callable:' + v.name)
     if type(v).__name__ == 'FuncRef':
